@@ -176,4 +176,80 @@ theorem locked_antitone (sd : Bool) (ol s e t1 t2 : Int) : S_locked_antitone sd 
   · have := U_range ol s e t1 ho a1 a2 a3; omega
   · have := U_mono ol s e t1 t2 ho a1 h12 a3; omega
 
+/-! ## Part 2 — state machine -/
+
+/-- every message is atomic: anything but `ok` leaves the state untouched (a failing end-block only halts) -/
+theorem step_atomic (s : St) (op : Op) (h : (step s op).2 ≠ "ok") (hb : ∀ t, op ≠ .block t) : (step s op).1 = s := by
+  unfold step at h ⊢
+  by_cases hh : s.halted
+  · simp [hh]
+  · simp only [hh, Bool.false_eq_true, if_false] at h ⊢
+    cases ha : Lockup.apply s op with
+    | ok s' => simp [ha] at h
+    | err c => cases op <;> simp_all
+    | panic k => simp
+
+/-- who may act: the lockup handlers for the owner, the proxy handlers for the proxy's root owner; both the message's
+    sender field and the actual caller of MsgExecute must be that address -/
+def authorised (s : St) : Op → Bool
+  | .send c sd _ _ _ => checkSender s.owner c sd
+  | .nvDelegate c sd _ _ _ _ => checkSender s.owner c sd
+  | .nvUndelegate c sd _ _ _ _ => checkSender s.owner c sd
+  | .nvWithdrawReward c sd _ => checkSender s.owner c sd
+  | .sdSelfDelegate c sd _ _ => checkSender s.owner c sd
+  | .sdWithdraw c sd _ => checkSender s.owner c sd
+  | .pxUndelegate d c sd _ _ => checkSender (rootOwner s d) c sd
+  | .pxWithdrawReward d c sd _ => checkSender (rootOwner s d) c sd
+  | .pxSend d c sd _ _ _ => checkSender (rootOwner s d) c sd
+  | _ => true
+
+theorem checkSender_iff (o c sd : Addr) : checkSender o c sd = true ↔ sd = o ∧ c = o := by
+  unfold checkSender
+  simp only [Bool.and_eq_true, beq_iff_eq]
+  constructor
+  · rintro ⟨h1, h2⟩; exact ⟨h1, h2.trans h1⟩
+  · rintro ⟨h1, h2⟩; exact ⟨h1, h2.trans h1.symm⟩
+
+/-- owner_only: an account handler invoked by anybody but the owner (proxy: root owner) — including an outer signer that
+    merely NAMES the owner in the message's sender field — is an error and changes nothing -/
+theorem apply_unauthorised (s : St) (op : Op) (h : authorised s op = false) : ∃ c, Lockup.apply s op = .err c := by
+  cases op <;> simp only [authorised] at h <;> (try exact absurd h (by decide)) <;>
+    simp only [Lockup.apply, doSend, doNvDelegate, doNvUndelegate, doNvWithdrawReward, doSdSelfDelegate, doSdWithdraw,
+      doPxUndelegate, doPxWithdrawReward, doPxSend, h, Bool.not_false, if_true] <;>
+    (split <;> exact ⟨_, rfl⟩)
+
+theorem owner_only (s : St) (op : Op) (h : authorised s op = false) : step s op = (s, "err") ∨ step s op = (s, "halted") := by
+  obtain ⟨c, hc⟩ := apply_unauthorised s op h
+  unfold step
+  by_cases hh : s.halted
+  · right; simp [hh]
+  · left
+    simp only [hh, Bool.false_eq_true, if_false, hc]
+    cases op <;> simp [authorised] at h ⊢
+
+/-- non-vacuity: the spoofing signer of finding C12-F1 (outer caller a2, sender field a0 = owner) is not authorised -/
+example : authorised { owner := "a0", created := true } (.send "a2" "a0" "a2" fee 700) = false := by decide
+
+/-- proxy_cannot_forward_stake: the proxy's `Send` of the bond denom (or of share tokens) is rejected whoever asks -/
+theorem proxy_cannot_forward_stake (s : St) (d c sd dst : Addr) (dn : Denom) (x : Int) (h : sendDisabled dn = true) :
+    (step s (.pxSend d c sd dst dn x)).2 ≠ "ok" ∧ (step s (.pxSend d c sd dst dn x)).1 = s := by
+  have key : ∀ r, Lockup.apply s (.pxSend d c sd dst dn x) ≠ .ok r := by
+    intro r
+    simp only [Lockup.apply, doPxSend, msgSend, h]
+    split
+    · simp
+    · split
+      · simp
+      · split <;> simp [Res.bind]
+  unfold step
+  by_cases hh : s.halted
+  · simp [hh]
+  · simp only [hh, Bool.false_eq_true, if_false]
+    cases ha : Lockup.apply s (.pxSend d c sd dst dn x) with
+    | ok s' => exact absurd ha (key s')
+    | err c => simp
+    | panic k => simp
+
+example : sendDisabled bond = true := by decide
+
 end Sunrise.C12
